@@ -69,6 +69,17 @@ CLASSIFIERS = {"cmp_tiny_input_runtime_error": cmp_tiny_input, "cmp_chunked_clam
 # ---------------------------------------------------------------- property table
 def P(**kw): return kw
 
+def gen_c04(tier, seed):
+    """segmentation cases + whole-index builds (upper levels are segmentations with EpsilonRecursive: judged per level),
+    preferring configurations with EpsilonRecursive > Epsilon"""
+    cases, stats = gens.gen_seg(tier, seed)
+    idx, st2 = gens.gen_idx(tier, seed, want_big=False) if "want_big" in gens.gen_idx.__code__.co_varnames else gens.gen_idx(tier, seed)
+    def hdr(l): h = l.split(" | ")[0].split(); return int(h[5]), int(h[6])        # Epsilon, EpsilonRecursive
+    idx = [l for l in idx if l.startswith("IDX ") and len(l) < 400000]
+    pick = [l for l in idx if hdr(l)[1] > hdr(l)[0]] + [l for l in idx if 0 < hdr(l)[1] <= hdr(l)[0]][: (20 if tier == "quick" else 200)]
+    stats["index_builds"] = len(pick)
+    return cases + pick, stats
+
 PROPS = {
     "C01": P(comp="idx", gen=lambda t, s: gens.gen_idx(t, s), judges=["C01"], kinds=("IDX", "FLT"),
              nontrivial=lambda line: len(line.split("|")[1].split()) >= 2),
@@ -107,7 +118,7 @@ PROPS = {
              flags="-std=c++17 -O1 -g -DNDEBUG -march=native -w -fsanitize=thread", nontrivial=lambda line: True),
     "C03": P(comp="idx", gen=lambda t, s: gens.gen_seg(t, s), judges=["C03"], kinds=("SEG",),
              nontrivial=lambda line: len(line.split("|")[1].split()) >= 3),
-    "C04": P(comp="idx", gen=lambda t, s: gens.gen_seg(t, s + 5), judges=["C04"], kinds=("SEG",),
+    "C04": P(comp="idx", gen=lambda t, s: gen_c04(t, s + 5), judges=["C04"], kinds=("SEG", "IDX"),
              nontrivial=lambda line: len(line.split("|")[1].split()) >= 3),
 }
 
